@@ -119,7 +119,8 @@ pub enum Op {
     DropTx { c: u8 },
     // ---- UnsafeCell ----
     CRead { c: u8 },
-    CWrite { c: u8 },
+    /// write the (unique) value v into the cell
+    CWrite { c: u8, v: u64 },
     // ---- loom::sync::Arc ----
     /// clone one of this thread's handles of arc r (no-op if it holds none)
     ArcClone { r: u8 },
@@ -176,6 +177,7 @@ impl Op {
             | Op::Cas { .. }
             | Op::FetchUpdate { .. }
             | Op::AUnsyncLoad { .. }
+            | Op::CRead { .. }
             | Op::TryLock { .. }
             | Op::TryRLock { .. }
             | Op::TryWLock { .. }
@@ -264,7 +266,7 @@ impl fmt::Display for Op {
             DropRx { c } => write!(f, "droprx(ch{})", c),
             DropTx { c } => write!(f, "droptx(ch{})", c),
             CRead { c } => write!(f, "cread(c{})", c),
-            CWrite { c } => write!(f, "cwrite(c{})", c),
+            CWrite { c, v } => write!(f, "cwrite(c{},{})", c, v),
             ArcClone { r } => write!(f, "arc_clone(r{})", r),
             ArcDrop { r } => write!(f, "arc_drop(r{})", r),
             ArcCount { r } => write!(f, "arc_count(r{})", r),
@@ -354,7 +356,7 @@ impl Program {
                     (5, *c, false)
                 }
                 CRead { c } => (6, *c, true),
-                CWrite { c } => (6, *c, false),
+                CWrite { c, .. } => (6, *c, false),
                 ArcClone { r }
                 | ArcDrop { r }
                 | ArcGetMut { r }
